@@ -54,7 +54,7 @@ fn maxes(initial: Duration) -> Vec<Option<Duration>> {
     ]
 }
 
-const MULTIPLIERS: [f64; 5] = [1.0, 1.5, 2.0, 3.0, 10.0];
+const MULTIPLIERS: [f64; 7] = [1.0, 1.01, 1.1, 1.5, 2.0, 3.0, 10.0];
 const FACTORS: [f64; 4] = [0.0, 0.1, 0.5, 1.0];
 
 /// Reference: initial x multiplier^attempt in f64 seconds (may be +inf).
